@@ -152,7 +152,7 @@ fn fam_sized<E: Shape>(cx: &mut Ctx, p: &ByteCase) {
     let seed = p.p(4);
     let ctor = pick(p.p(5), 8);
     let nclones = pick(p.p(6), 4);
-    let path = pick(p.p(7), 12);
+    let path = pick(p.p(7), 15);
     cx.release_differs = path != 0;
     one_word::<Arc<E>>("Arc<T>");
     one_word::<OffsetArc<E>>("OffsetArc<T>");
@@ -299,6 +299,72 @@ fn fam_sized<E: Shape>(cx: &mut Ctx, p: &ByteCase) {
             lib!(drop(extra));
             lib!(drop(a))
         }
+        12 => {
+            // two trait-object handles to one allocation obtained by different routes
+            let c2 = lib!(a.clone());
+            let raw: *const E = lib!(Arc::into_raw(a));
+            let d1: Arc<dyn DynShape> = lib!(unsafe { Arc::from_raw(raw as *const dyn DynShape) });
+            let raw2: *const E = lib!(Arc::into_raw(c2));
+            let d2: Arc<dyn DynShape> = lib!(unsafe { Arc::from_raw(raw2 as *const dyn DynShape) });
+            let d3 = lib!(d1.clone());
+            if !Arc::ptr_eq(&d1, &d2) || !Arc::ptr_eq(&d1, &d3) || d1.heap_ptr() != d2.heap_ptr() {
+                viol::report(P11, "P.dyn-ptr-eq", format!("{}: trait-object handles to one allocation are not ptr_eq / differ in heap_ptr", cx.what));
+            }
+            if Arc::count(&d1) != expect_count + 2 {
+                viol::report(&["C04", "C11"], "N.count", format!("{}: count {} after two dyn views and a clone (expected {})", cx.what, Arc::count(&d1), expect_count + 2));
+            }
+            lib!(drop(d3));
+            lib!(drop(d1));
+            lib!(drop(d2))
+        }
+        13 => {
+            #[cfg(feature = "unsize")]
+            {
+                use unsize::CoerceUnsize;
+                // ArcBorrow and UniqueArc coercions
+                let b = a.borrow_arc();
+                let db: ArcBorrow<'_, dyn DynShape> = b.unsize(unsize::Coercion!(to dyn DynShape));
+                let bits: usize = unsafe { std::mem::transmute_copy::<ArcBorrow<'_, dyn DynShape>, [usize; 2]>(&db) }[0];
+                if bits != data || Arc::count(&a) != expect_count {
+                    viol::report(P11, "P.unsize-borrow", format!("{}: unsized ArcBorrow points at {:#x} (value at {:#x}), count {}", cx.what, bits, data, Arc::count(&a)));
+                }
+                if nclones == 0 {
+                    match lib!(Arc::try_unique(a)) {
+                        Ok(u) => {
+                            let du: UniqueArc<dyn DynShape> = lib!(u.unsize(unsize::Coercion!(to dyn DynShape)));
+                            if !du.check(dseed) || &*du as *const dyn DynShape as *const () as usize != data {
+                                viol::report(P11, "P.unsize-unique", format!("{}: unsized UniqueArc moved or reads wrong contents", cx.what));
+                            }
+                            let sh = lib!(du.shareable());
+                            if sh.heap_ptr() as usize != bl.ptr || Arc::count(&sh) != 1 {
+                                viol::report(P11, "P.unsize-unique", format!("{}: unsized UniqueArc -> shareable: heap {:#x} count {}", cx.what, sh.heap_ptr() as usize, Arc::count(&sh)));
+                            }
+                            lib!(drop(sh))
+                        }
+                        Err(a) => lib!(drop(a)),
+                    }
+                } else {
+                    lib!(drop(a))
+                }
+            }
+            #[cfg(not(feature = "unsize"))]
+            lib!(drop(a))
+        }
+        14 => {
+            // slice view through unsize (feature) or drop
+            #[cfg(feature = "unsize")]
+            {
+                use unsize::CoerceUnsize;
+                let arr: Arc<[E; 3]> = lib!(Arc::new([E::pat(dseed), E::pat(dseed), E::pat(dseed)]));
+                let hp = arr.heap_ptr() as usize;
+                let sl: Arc<[E]> = lib!(arr.unsize(unsize::Coercion::to_slice()));
+                if sl.heap_ptr() as usize != hp || sl.len() != 3 || !sl[2].ok(dseed) {
+                    viol::report(P11, "P.unsize-slice", format!("{}: array -> slice coercion moved the allocation or changed contents", cx.what));
+                }
+                lib!(drop(sl));
+            }
+            lib!(drop(a))
+        }
         _ => {
             #[cfg(feature = "arc-swap")]
             {
@@ -354,7 +420,7 @@ fn fam_hs<H: Shape, E: Shape>(cx: &mut Ctx, p: &ByteCase, thin: bool) {
     let len = LENS[pick(p.p(5), LENS.len())];
     cx.lens = len;
     let ctor = pick(p.p(6), if thin { 2 } else { 4 });
-    let path = pick(p.p(7), if thin { 5 } else { 4 });
+    let path = pick(p.p(7), if thin { 6 } else { 4 });
     cx.release_differs = path != 0;
     let items: Vec<E> = (0..len).map(|i| E::pat(seed.wrapping_add(i as u8))).collect();
     let zst = size_of::<E>() == 0;
@@ -417,6 +483,27 @@ fn fam_hs<H: Shape, E: Shape>(cx: &mut Ctx, p: &ByteCase, thin: bool) {
                     viol::report(&["C04"], "N.count", format!("{}: count {} after dropping the original", cx.what, ThinArc::strong_count(&c)));
                 }
                 lib!(drop(c))
+            }
+            5 => {
+                #[cfg(feature = "arc-swap")]
+                {
+                    use arc_swap::RefCnt;
+                    let ap = <ThinArc<H, E> as RefCnt>::as_ptr(&t) as usize;
+                    let c = lib!(t.clone());
+                    let ip = <ThinArc<H, E> as RefCnt>::into_ptr(t) as usize;
+                    if ap != ip || ap != bl.ptr {
+                        viol::report(P11, "P.refcnt-thin", format!("{}: RefCnt::as_ptr {:#x} / into_ptr {:#x} / block {:#x} disagree", cx.what, ap, ip, bl.ptr));
+                    }
+                    let back = unsafe { <ThinArc<H, E> as RefCnt>::from_ptr(ip as *const _) };
+                    if back.heap_ptr() as usize != bl.ptr || ThinArc::strong_count(&back) != 2 {
+                        viol::report(P11, "P.refcnt-thin", format!("{}: RefCnt::from_ptr recovered block {:#x} count {}", cx.what, back.heap_ptr() as usize, ThinArc::strong_count(&back)));
+                    }
+                    check_slice(cx, &back.slice, len, seed);
+                    lib!(drop(back));
+                    lib!(drop(c))
+                }
+                #[cfg(not(feature = "arc-swap"))]
+                lib!(drop(t))
             }
             _ => {
                 let a = lib!(Arc::from_thin(t));
@@ -595,6 +682,81 @@ fn fam_slice<E: Shape>(cx: &mut Ctx, p: &ByteCase) {
             check_slice(cx, &c, len, seed);
             lib!(drop(c))
         }
+    }
+    released(cx, &bl);
+}
+
+// ------------------------------------------------------------------------------------
+// family 5: str payloads (header shape H)
+// ------------------------------------------------------------------------------------
+fn fam_str<H: Shape>(cx: &mut Ctx, p: &ByteCase) {
+    let seed = p.p(4);
+    let n = [0usize, 1, 3, 7, 8, 9, 15, 16, 17, 40, 255, 256, 257][pick(p.p(5), 13)];
+    cx.lens = n;
+    let chars = ['a', 'é', '漢', '🦀'];
+    let s: String = (0..n).map(|i| chars[(seed as usize + i) % 4]).collect();
+    let ctor = pick(p.p(6), 3);
+    let path = pick(p.p(7), 4);
+    cx.release_differs = path != 0;
+    two_words::<Arc<str>>("Arc<str>");
+    cx.what = format!("str<{} bytes, H align {} n {}> {} release path {}", s.len(), H::ALIGN, H::N, ["Arc::<str>::from(&str)", "Arc::<str>::from(String)", "Arc::from_header_and_str"][ctor], path);
+    if ctor == 2 {
+        let (a, eff) = track(|| Arc::from_header_and_str(H::pat(seed), &s));
+        let bl = geometry(cx, &eff, Some(a.heap_ptr() as usize), Arc::as_ptr(&a) as *const () as usize, size_of_val(&*a), align_of_val(&*a));
+        if &a.slice != &s[..] || !a.header.ok(seed) || a.slice.as_ptr() as usize + s.len() > bl.ptr + bl.size {
+            viol::report(&["C05", "C06"], "F.contents", format!("{}: contents/header wrong or outside the block", cx.what));
+        }
+        match path {
+            1 => {
+                let raw = lib!(Arc::into_raw(a));
+                let back = lib!(unsafe { Arc::from_raw(raw) });
+                if back.heap_ptr() as usize != bl.ptr || &back.slice != &s[..] {
+                    viol::report(P11, "P.roundtrip", format!("{}: from_raw(into_raw) on Arc<HeaderSlice<H,str>> recovered another block / contents", cx.what));
+                }
+                lib!(drop(back))
+            }
+            2 => {
+                let c = lib!(a.clone());
+                lib!(drop(a));
+                lib!(drop(c))
+            }
+            _ => lib!(drop(a)),
+        }
+        released(cx, &bl);
+        return;
+    }
+    let (a, eff): (Arc<str>, _) = track(|| if ctor == 0 { Arc::from(&s[..]) } else { Arc::from(s.clone()) });
+    let data = (*a).as_ptr() as usize;
+    let bl = geometry(cx, &eff, Some(a.heap_ptr() as usize), data, s.len(), 1);
+    if &*a != &s[..] || Arc::as_ptr(&a) as *const u8 as usize != data {
+        viol::report(&["C05", "C06", "C11"], "F.contents", format!("{}: contents wrong or as_ptr differs from the str address", cx.what));
+    }
+    match path {
+        1 => {
+            let raw: *const str = lib!(Arc::into_raw(a));
+            let back: Arc<str> = lib!(unsafe { Arc::from_raw(raw) });
+            if back.heap_ptr() as usize != bl.ptr || &*back != &s[..] || Arc::count(&back) != 1 {
+                viol::report(P11, "P.roundtrip", format!("{}: from_raw(into_raw) on Arc<str> recovered block {:#x} count {}", cx.what, back.heap_ptr() as usize, Arc::count(&back)));
+            }
+            lib!(drop(back))
+        }
+        2 => {
+            let h: Arc<HeaderSlice<(), str>> = lib!(a.into());
+            if h.heap_ptr() as usize != bl.ptr || &h.slice != &s[..] {
+                viol::report(P11, "P.erasure", format!("{}: Arc<HeaderSlice<(),str>> view moved", cx.what));
+            }
+            let back: Arc<str> = lib!(h.into());
+            lib!(drop(back))
+        }
+        3 => {
+            let c = lib!(a.clone());
+            if !Arc::ptr_eq(&a, &c) {
+                viol::report(P11, "P.ptr-eq", format!("{}: a clone is not ptr_eq", cx.what));
+            }
+            lib!(drop(a));
+            lib!(drop(c))
+        }
+        _ => lib!(drop(a)),
     }
     released(cx, &bl);
 }
@@ -797,6 +959,7 @@ fn run_pair<H: Shape, E: Shape>(cx: &mut Ctx, p: &ByteCase, fams: &[u8]) {
         1 => fam_hs::<H, E>(cx, p, false),
         2 => fam_hs::<H, E>(cx, p, true),
         3 => fam_slice::<E>(cx, p),
+        5 => fam_str::<H>(cx, p),
         _ => fam_union::<H, E>(cx, p),
     }
 }
@@ -830,8 +993,8 @@ impl MatrixEngine {
     pub fn new(prop: &'static str) -> Self {
         let fams = match prop {
             "C12" => vec![4],
-            "C11" => vec![0, 0, 1, 2, 3],
-            _ => vec![0, 1, 2, 3, 4],
+            "C11" => vec![0, 0, 0, 1, 2, 2, 3, 5],
+            _ => vec![0, 1, 2, 3, 4, 5],
         };
         MatrixEngine { prop, fams }
     }
@@ -893,6 +1056,8 @@ impl Engine for MatrixEngine {
             labels.push("family:header-slice");
         } else if cx.what.starts_with("slice") {
             labels.push("family:slice");
+        } else if cx.what.starts_with("str") {
+            labels.push("family:str");
         } else if cx.what.starts_with("union") {
             labels.push("family:union");
         } else {
